@@ -1,5 +1,5 @@
 import Sparrow.Proofs.Support
-import Sparrow.Model.Collect
+import Sparrow.Proofs.CollectLemmas
 import Sparrow.Generated.Constants
 /-
   C02 — Energy arrives at its time of flight and is never wrapped around the histogram.
@@ -34,37 +34,63 @@ theorem truncation_removes (sc : ExScene ℝ) (hwf : sc.WF) (S' : Nat) (_hS : S'
   unfold specEtc
   simp only [specOrder_congr_S]
 
-/-- Receiver collection: a non-zero output bin `t` of patch `i` comes from input bin
-    `t - binR i` of the same patch; nothing is written before `binR i`. -/
-theorem receiver_no_wrap (binR : Nat → Nat) (w : Nat → ℝ) (E : Nat → Nat → ℝ) (i t : Nat)
-    (h : collectF binR w E i t ≠ 0) : binR i ≤ t ∧ E i (t - binR i) ≠ 0 := by
+/-
+  Receiver collection — FULL STATEMENT (what the property demands of `_collect_receiver_energy`):
+
+    theorem receiver_no_wrap (S binR w E i t) (ht : t < S)
+        (h : collectRollF S binR w E i t ≠ 0) : binR i ≤ t ∧ E i (t - binR i) ≠ 0
+
+  It is FALSE of the code at the pinned commit and of its model (known finding D3: the kernel
+  delays with `np.roll`): `receiver_wraps_witness` below is the concrete counterexample,
+  replayed on the implementation by the check.  Proved instead: the statement under the
+  hypothesis that no energy is delayed past the end of the histogram (`…_partial`).
+-/
+
+/-- Receiver collection, partial: as long as the (weighted) patch histogram is zero from bin
+    `S - binR i` on, a non-zero output bin `t` of patch `i` comes from input bin `t - binR i`
+    of the same patch and nothing is written before `binR i`. -/
+theorem receiver_no_wrap_partial (S : Nat) (binR : Nat → Nat) (w : Nat → ℝ) (E : Nat → Nat → ℝ)
+    (i t : Nat) (ht : t < S) (hfit : ∀ u, S - binR i ≤ u → u < S → E i u = 0)
+    (h : collectRollF S binR w E i t ≠ 0) : binR i ≤ t ∧ E i (t - binR i) ≠ 0 := by
+  rw [collectRollF_eq_collectF_of_fits S binR w E i t ht hfit] at h
   unfold collectF at h
   split at h
   · next hle => exact ⟨hle, fun h0 => h (by rw [h0]; ring)⟩
   · exact absurd rfl h
 
-/-- As a histogram, `collectF` is the truncating delay of the scaled patch histogram. -/
-theorem receiver_is_shiftTrunc (S : Nat) (binR : Nat → Nat) (w : Nat → ℝ) (E : Nat → Nat → ℝ)
-    (i t : Nat) (ht : t < S) :
-    collectF binR w E i t =
+/-- Under the same hypothesis the code's kernel *is* the truncating delay of the scaled
+    patch histogram. -/
+theorem receiver_is_shiftTrunc_partial (S : Nat) (binR : Nat → Nat) (w : Nat → ℝ)
+    (E : Nat → Nat → ℝ) (i t : Nat) (ht : t < S)
+    (hfit : ∀ u, S - binR i ≤ u → u < S → E i u = 0) :
+    collectRollF S binR w E i t =
       (shiftTrunc (binR i) ((List.range S).map fun u => E i u * w i)).getD t 0 := by
-  rw [getD_shiftTrunc]
+  rw [collectRollF_eq_collectF_of_fits S binR w E i t ht hfit, getD_shiftTrunc]
   unfold collectF
   by_cases hle : binR i ≤ t
   · have : t - binR i < S := by omega
     simp [hle, ht, List.getD_eq_getElem?_getD, this]
   · simp [hle]
 
+/-- The negation of the full statement on a concrete witness (D3): a two-bin histogram with
+    energy in its last bin, delayed by one bin, shows that energy in bin 0. -/
+theorem receiver_wraps_witness :
+    ∃ (S : Nat) (binR : Nat → Nat) (w : Nat → ℝ) (E : Nat → Nat → ℝ) (i t : Nat), t < S ∧
+      collectRollF S binR w E i t ≠ 0 ∧ ¬ (binR i ≤ t ∧ E i (t - binR i) ≠ 0) :=
+  ⟨2, fun _ => 1, fun _ => 1, fun _ t => if t = 1 then 1 else 0, 0, 0, by decide,
+    by rw [collectRollF_wraps.1]; exact one_ne_zero, by simp⟩
+
 /-- Why `np.roll` is not this operator: it is a different function already on two bins. -/
 theorem roll_wraps : roll 1 [1, 2] ≠ shiftTrunc 1 ([1, 2] : List Nat) := by decide
 
 /-- The three delay sites of the fast engine, as the source has them now (regenerated from
     `/repo` on every run): floor for source→patch and patch→patch legs, ceil for the
-    receiver leg, no `np.roll`, and the order-0 store guarded by the histogram length. -/
+    receiver leg, no `np.roll` in the two exchange kernels, `np.roll` still in the receiver
+    kernel (D3), and the order-0 store guarded by the histogram length. -/
 theorem delay_sites_as_modelled :
     Generated.initRounding = .floor ∧ Generated.exchangeRounding = .floor ∧
     Generated.collectRounding = .ceil ∧ Generated.initUsesRoll = false ∧
-    Generated.exchangeUsesRoll = false ∧ Generated.collectUsesRoll = false ∧
+    Generated.exchangeUsesRoll = false ∧ Generated.collectUsesRoll = true ∧
     Generated.initGuarded = true := by decide
 
 /-- Non-vacuity: a 2-patch, 3-bin scene in which order-1 energy crosses the end of the
